@@ -723,9 +723,68 @@ namespace
 
         // ------------------------------------------------------------------ growth table (information only)
         // ticks for principal magnitudes +-2^k on the functions that contain tick sites; any budget overrun is still a violation
+        // completeness backstop of the thorough tier (like C15's census): every float32 bit pattern through every unary float function on the
+        // 16-lane avx512f instantiation, 16 consecutive patterns per call, both clocks running. The seeded search stays the deciding step - only it
+        // mixes magnitudes within one batch - but the property's quantifier names the exhaustive float32 sweep, and 2^32 arguments are affordable.
+        template <class W>
+        bool sweep_f32(const sim::Args& args, W& w)
+        {
+            std::vector<int> fns;
+            for (size_t i = 0; i < table.size(); ++i)
+                if (table[i].arity == 1 && !strcmp(table[i].tname, "f32") && !strcmp(table[i].arch, "avx512f") && table[i].lanes == 16 && (only_fn.empty() || only_fn == table[i].name))
+                    fns.push_back((int)i);
+            const uint64_t chunks = (uint64_t)1 << 28;
+            uint64_t calls = 0, worst_blocks = 0, worst_ticks = 0;
+            Value per_fn = Value::object();
+            for (int fn : fns)
+            {
+                uint64_t fn_worst = 0;
+                for (uint64_t c = args.offset; c < chunks; c += args.stride)
+                {
+                    Op op;
+                    op.fn = fn;
+                    for (int i = 0; i < 32; ++i)
+                    {
+                        op.a[i] = i < 16 ? c * 16 + (uint64_t)i : 0;
+                        op.b[i] = 0;
+                    }
+                    uint64_t t = 0;
+                    bool ex = false;
+                    run_call(op, t, ex, nullptr);
+                    ++calls;
+                    ++c_calls;
+                    c_ticks += t;
+                    c_blocks += last_blocks;
+                    if (last_blocks > fn_worst)
+                        fn_worst = last_blocks;
+                    if (t > worst_ticks)
+                        worst_ticks = t;
+                    if (ex)
+                    {
+                        op.binade = (int)((op.a[0] >> 23) & 0xff);
+                        op.sign = (int)(op.a[0] >> 31);
+                        op.family = 9;
+                        op.companions = 0;
+                        Plan pl { op };
+                        uint64_t idx = ((uint64_t)fn << 32) | c;
+                        w.process(pl, idx, idx, [&]() { return pl; });
+                    }
+                }
+                if (fn_worst > worst_blocks)
+                    worst_blocks = fn_worst;
+                per_fn.set(table[(size_t)fn].name, (unsigned long long)fn_worst);
+            }
+            printf("%s\n", sim::json::dump(Value::object().set("sweep", Value::object().set("functions", (unsigned long long)fns.size()).set("calls", (unsigned long long)calls)
+                                                                         .set("max_blocks_per_call", (unsigned long long)worst_blocks).set("max_ticks_per_call", (unsigned long long)worst_ticks)
+                                                                         .set("max_blocks_by_function", per_fn))).c_str());
+            return true;
+        }
+
         template <class W>
         bool custom_command(const sim::Args& args, W& w)
         {
+            if (args.cmd == "sweep")
+                return sweep_f32(args, w);
             if (args.cmd != "growth")
                 return false;
             Value tab = Value::object();
